@@ -28,3 +28,4 @@ func verifBoundTryFailures(n int)
 func verifPendingAfterFuncs() int
 func verifCondWaiters(c *sync.Cond) int
 func verifBefore(model string, f func())
+func verifFireDeadline(id int)
